@@ -410,6 +410,7 @@ func (w *World) buildPkg(p *Pkg) error {
 			}
 			sig = sig2
 			if recvT != nil {
+				fc.fnRecvT = recvT
 				params = append(params, localVar{"recv", recvT})
 				skip["recv"] = true
 			}
@@ -519,6 +520,9 @@ func (w *World) buildPkg(p *Pkg) error {
 			params = append(append([]localVar{}, params...), locals...)
 		}
 		for _, c := range fc.Requires {
+			emit(c, params)
+		}
+		for _, c := range fc.RepInvs {
 			emit(c, params)
 		}
 		for _, c := range fc.ModClauses {
